@@ -91,6 +91,19 @@ theorem columns_named (species : List String) (hasVolume : Bool) :
     (columns species true hasVolume).take species.length = species := by
   simp [columns]
 
+/-- **where `time` and `volume` are**: for any number of species, named or positional, the label right after the species
+columns is `time`, and `volume`, when a volume is in play, is the label after that and the last one; without a volume
+`time` is the last label. -/
+theorem columns_time_volume (species : List String) (named hasVolume : Bool) :
+    (columns species named hasVolume)[species.length]? = some "time"
+    ∧ (columns species named hasVolume)[species.length + 1]? = (if hasVolume then some "volume" else none) := by
+  cases named <;> cases hasVolume <;> simp [columns, List.getElem?_append_right]
+
+/-- species columns of a positional (interface-only) result are the positions `0 … n−1` in order. -/
+theorem columns_positional (species : List String) (hasVolume : Bool) :
+    (columns species false hasVolume).take species.length = (List.range species.length).map toString := by
+  simp [columns]
+
 def dispatchOk (o : Options) : Bool :=
   match simulateModel o with
   | .result c s i _ n d =>
